@@ -72,7 +72,12 @@ def laws(cx, r, key, a, b, case, via):
 
 
 ROW_SRC = ("do def x = %s; [[x < y, x <= y, x > y, x >= y, x == y, compare(x, y), less(x, y), less_equals(x, y), "
-           "greater(x, y), greater_equals(x, y), min(x, y), max(x, y)] for y in %s]; end")
+           "greater(x, y), greater_equals(x, y), min(x, y), max(x, y), min([x, y]), max([x, y]), "
+           "min(x, y, key = fn(t) [t]), max(x, y, key = fn(t) [t]), min([y, x]), max([y, x])] for y in %s]; end")
+# the further forms of min / max: (name, column, which of the two is listed first)
+MINMAX_FORMS = [("min", 10, "x"), ("max", 11, "x"), ("min of the list [x, y]", 12, "x"),
+                ("max of the list [x, y]", 13, "x"), ("min with key", 14, "x"), ("max with key", 15, "x"),
+                ("min of the list [y, x]", 16, "y"), ("max of the list [y, x]", 17, "y")]
 
 
 def check_row_prog(cx, u, A, L, i, js, lst):
@@ -109,15 +114,27 @@ def check_row_prog(cx, u, A, L, i, js, lst):
             if not isinstance(cmpv, int) or sign(cmpv) != wc:
                 cx.vio(f"compare:{key}", f"compare: compare({lit_key(a)}, {lit_key(b)}) is {cmpv}, the model "
                                          f"says sign {wc}", case)
-            # min / max return one of the two, and the right one
-            for f, res, bad_if_x, bad_if_y in (("min", c[10], gt, lt), ("max", c[11], lt, gt)):
-                k = M.vkey(res, cx.im.refs)
-                kx, ky = M.vkey(A[i], cx.im.refs), M.vkey(L[j], cx.im.refs)
-                if k not in (kx, ky):
-                    cx.vio(f"{f}:{key}", f"{f}: {f}({lit_key(a)}, {lit_key(b)}) is {res}, neither argument", case)
-                elif kx != ky and ((k == kx and bad_if_x) or (k == ky and bad_if_y)):
-                    cx.vio(f"{f}:{key}", f"{f}: {f}({lit_key(a)}, {lit_key(b)}) is {res}, the model orders "
-                                         f"them the other way", case)
+            # min / max return one of the two, and the right one - in the two-argument form, over a
+            # list (either order of the elements), and with a key
+            for f, col, first in MINMAX_FORMS:
+                res = c[col]
+                is_min = f.startswith("min")
+                bad_if_x, bad_if_y = (gt, lt) if is_min else (lt, gt)
+                if res is A[i]:
+                    if bad_if_x:
+                        cx.vio(f"{f}:{key}", f"{f.split()[0]}: {f} on x = {lit_key(a)}, y = {lit_key(b)} is x, the "
+                                             f"model orders them the other way", case)
+                elif res is L[j]:
+                    if bad_if_y:
+                        cx.vio(f"{f}:{key}", f"{f.split()[0]}: {f} on x = {lit_key(a)}, y = {lit_key(b)} is y, the "
+                                             f"model orders them the other way", case)
+                else:
+                    cx.vio(f"{f}:{key}", f"{f.split()[0]}: {f} on x = {lit_key(a)}, y = {lit_key(b)} is "
+                                         f"{str(res)[:60]}, neither of the two", case)
+                    continue
+                if not lt and not gt and A[i] is not L[j] and (res is A[i]) != (first == "x"):
+                    cx.run.drift("min-max-of-equal-elements-is-not-the-first", {"form": f, "x": lit_key(a),
+                                                                                "y": lit_key(b)})
         else:
             laws(cx, r, key, a, b, case, " (program)")
         named = [c[6].value, c[7].value, c[8].value, c[9].value]
@@ -153,12 +170,13 @@ def check_transitivity(cx, u, groups, obs):
 # ------------------------------------------------------------------- sorted
 def sort_elem(m, e):
     """ValSort's compact element -> abstract value"""
-    if m in ("num", "numkey"):          # [num, den, 0 = int | 1 = decimal]
+    if m in ("num", "numkey", "num3", "numsub", "min", "max"):          # [num, den, 0 = int | 1 = decimal]
         return M.mk("dec" if e[2] else "int", e[:2])
     return M.a_list([M.a_int(e[0]), M.a_str(chr(96 + e[1]))])
 
 
 SORT_CALL = {"num": "sorted(%s)", "numkey": "sorted(%s, key = fn(x) [type(x), x])", "plain": "sorted(%s)", "key": "sorted(%s, key = fn(x) x[0])",
+             "num3": "sorted(%s, cmp = fn(a, b) 3 * compare(a, b))", "numsub": "sorted(%s, cmp = fn(a, b) int(2 * a) - int(2 * b))",
              "keyrev": "sorted(%s, cmp = fn(a, b) compare(b, a), key = fn(x) x[0])"}
 
 
@@ -177,15 +195,131 @@ def check_sort_case(cx, m, inp, out):
         cx.vio("sorted:" + src, f"sorted: {src} gives {o[1]}, the sorting machine {M.literal(M.a_list(out))}", case)
 
 
-def check_enum(cx, a, srt, built, how):
-    """enumeration order of a set / of the keys of a map"""
-    cx.im.put("ev", built)
+MINMAX_CALL = {"min": "min(sl)", "max": "max(sl)", "minkey": "min(sl, key = fn(x) x[0])",
+               "maxkey": "max(sl, key = fn(x) x[0])"}
+
+
+def which_of(objs, res):
+    """position (1-based) of the returned object among the inputs, by identity; 0: none of them"""
+    for k, ob in enumerate(objs):
+        if ob is res:
+            return k + 1
+    return 0
+
+
+def check_minmax_case(cx, m, inp, which, ok):
+    """one run of the scan machine: the element returned is one the model accepts"""
+    objs = [M.build(e, cx.im.refs) for e in inp]
+    lst = V.ValueList()
+    for ob in objs:
+        lst.addItem(ob)
+    cx.im.put("sl", lst)
+    src = MINMAX_CALL[m]
+    o = cx.im.run(src)
+    cx.n_eval += 1
+    desc = src.replace("sl", M.literal(M.a_list(inp)), 1)
+    case = {"kind": "minmax", "m": m, "inp": inp}
+    if o[0] != "val":
+        cx.vio("minmax:" + desc + " !" + str(o[1]), f"{'host-exception' if o[0] == 'host' else 'error'}: {desc} "
+                                                    f"failed: {o[1:]}", case)
+        return
+    got = which_of(objs, o[1])
+    if got == 0 or not ok[got - 1]:
+        cx.vio("minmax:" + desc, f"{m[:3]}: {desc} gives {str(o[1])[:60]} (position {got}), the scanning machine "
+                                 f"position {which}: {'not an element' if got == 0 else 'another element is ' + ('below' if m.startswith('min') else 'above') + ' it'}",
+               case)
+    elif got != which:
+        cx.run.drift("min-max-of-equal-elements-is-not-the-first", {"call": desc, "position": got})
+
+
+def check_triples(cx, u, L, groups, rng, count):
+    """min / max of three-element lists drawn from the universe (every argument order)"""
+    n = 0
+    for g in groups.values():
+        st = [i for i in g if u["st"][i][i]]
+        if len(st) < 3:
+            continue
+        for _ in range(max(1, count * len(st) // max(1, sum(len(x) for x in groups.values())))):
+            i, j, k = rng.sample(st, 3)
+            if not (u["st"][i][j] and u["st"][j][k] and u["st"][i][k]):
+                continue
+            idx = [i, j, k]
+            lst = V.ValueList()
+            for t in idx:
+                lst.addItem(L[t])
+            cx.im.put("sl", lst)
+            o = cx.im.run("[min(sl), max(sl), min(sl, key = fn(t) [t]), max(sl, key = fn(t) [t])]")
+            cx.n_eval += 1
+            n += 1
+            names = "[" + ", ".join(lit_key(u["v"][t]) for t in idx) + "]"
+            case = {"kind": "minmax", "m": "min", "inp": [u["v"][t] for t in idx]}
+            if o[0] != "val":
+                cx.vio(f"minmax3:{names} !{o[1]}", f"{'host-exception' if o[0] == 'host' else 'error'}: min / max of "
+                                                   f"{names} failed: {o[1:]}", case)
+                continue
+            for f, res in zip(("min", "max", "min with key", "max with key"), o[1].value):
+                got = which_of([L[t] for t in idx], res)
+                if got == 0:
+                    cx.vio(f"{f} of 3:{names}", f"{f[:3]}: {f} of {names} is {str(res)[:60]}, not an element", case)
+                    continue
+                t = idx[got - 1]
+                beaten = [q for q in idx if (u["lt"][q][t] if f.startswith("min") else u["lt"][t][q])]
+                if beaten:
+                    cx.vio(f"{f} of 3:{names}", f"{f[:3]}: {f} of {names} is {lit_key(u['v'][t])}, but "
+                                                f"{lit_key(u['v'][beaten[0]])} is "
+                                                f"{'below' if f.startswith('min') else 'above'} it", case)
+    return n
+
+
+def enum_sites(a):
+    """the places where a program enumerates the set / map held in `ev`:
+    (program, what it yields: keys | values | entries, whether it yields everything)"""
+    n = len(a["items"])
+    k = min(n, 3)
+    ids = ", ".join("pqr"[:k])
+    sites = []
     if a["k"] == "set":
-        progs = ["[x for x in ev]", "list(ev)", "do def acc = []; for x in ev do append(acc, x) end; acc; end"]
+        sites += [("[x for x in ev]", "keys", True), ("list(ev)", "keys", True),
+                  ("do def acc = []; for x in ev do append(acc, x) end; acc; end", "keys", True),
+                  ("[...ev]", "keys", True), ("[...ev, ...[]]", "keys", True),
+                  ("(fn(a...) a...)(...ev)", "keys", True),
+                  ("sorted(ev, cmp = fn(a, b) 0)", "keys", True),
+                  ("[x for x in ev if TRUE]", "keys", True)]
+        if k:
+            sites += [(f"do def [{ids}] = ev; [{ids}]; end", "keys", k == n),
+                      ("do " + " ".join(f"def {c} = NULL;" for c in "pqr"[:k]) + f" [{ids}] = ev; [{ids}]; end", "keys", k == n)]
+        if k >= 2:
+            sites += [(f"do def acc = []; for [{ids}] in [ev] do " + " ".join(f"append(acc, {c});" for c in "pqr"[:k])
+                       + " end; acc; end", "keys", k == n)]
     else:
-        progs = ["[x for x in keys ev]", "do def acc = []; for x in keys ev do append(acc, x) end; acc; end",
-                 "[e[0] for e in entries ev]", "list(set(ev))"]
+        sites += [("[x for x in keys ev]", "keys", True),
+                  ("do def acc = []; for x in keys ev do append(acc, x) end; acc; end", "keys", True),
+                  ("[e[0] for e in entries ev]", "keys", True), ("list(set(ev))", "keys", True),
+                  ("[...ev]", "keys", True),
+                  ("[v for v in values ev]", "values", True),
+                  ("do def acc = []; for v in values ev do append(acc, v) end; acc; end", "values", True),
+                  ("[e[1] for e in entries ev]", "values", True),
+                  ("[e for e in entries ev]", "entries", True),
+                  ("do def acc = []; for e in entries ev do append(acc, e) end; acc; end", "entries", True)]
+        if not any(x["k"] == "str" for x in a["items"]):
+            sites.append(("(fn(a...) a...)(...ev)", "values", True))     # string keys would name the arguments
+    return sites
+
+
+def check_enum(cx, a, srt, built, how):
+    """enumeration order of a set / of a map at every enumeration site"""
+    cx.im.put("ev", built)
     want = [M.akey(x) for x in srt]
+    vals_of = {M.akey(x): y for x, y in zip(a["items"], a["vals"])} if a["k"] == "map" else {}
+    progs = []
+    for p, what, full in enum_sites(a):
+        if what == "keys":
+            w = want
+        elif what == "values":
+            w = [M.akey(vals_of[kx]) for kx in want]
+        else:
+            w = [("list", (kx, M.akey(vals_of[kx]))) for kx in want]
+        progs.append((p, w if full else w[:min(len(w), 3)]))
     # the text of the container lists its elements / keys in that order too
     if not any(M.has_kind(x, ("set", "map")) for x in srt):
         by_key = {M.akey(x): (x, y) for x, y in zip(a["items"], a["vals"] or a["items"])}
@@ -202,18 +336,19 @@ def check_enum(cx, a, srt, built, how):
             cx.vio(f"enum-text:{lit_key(a)}", f"enumeration: the text of {lit_key(a)} ({how}) is "
                                               f"{o[1].value if o[0] == 'val' else o[1:]!r}, in ascending order "
                                               f"it is {exp!r}", {"kind": "enum", "v": a})
-    for p in progs:
+    for p, w in progs:
         o = cx.im.run(p)
         cx.n_eval += 1
-        case = {"kind": "enum", "v": a}
+        case = {"kind": "enum", "v": a, "src": p}
         if o[0] != "val":
             cx.vio(f"enum:{lit_key(a)}:{p} !{o[1]}", f"{'host-exception' if o[0] == 'host' else 'error'}: "
                                                      f"enumerating {lit_key(a)} with {p} failed: {o[1:]}", case)
             continue
         got = [M.vkey(x, cx.im.refs) for x in o[1].value]
-        if got != want:
+        if got != w:
             cx.vio(f"enum:{lit_key(a)}:{p}", f"enumeration: {p} over {lit_key(a)} ({how}) gives {o[1]}, "
-                                             f"ascending order is {M.literal(M.a_list(srt))}", case)
+                                             f"the ascending order of the elements / keys is "
+                                             f"{M.literal(M.a_list(srt))}", case)
 
 
 # ---------------------------------------------------------------- binding B
@@ -224,9 +359,11 @@ KINDS_B = ["num", "num", "str", "str", "bool", "date", "list-num", "list-str", "
 def gen_kind(rng, kind):
     """a value of the given kind: num | str | bool | date | list-<kind>"""
     if kind == "num":
-        return M.gen_scalar(rng, rng.choice(["int", "dec"]))
+        return M.gen_scalar(rng, rng.choice(["int", "dec"]), rich=True)
+    if kind == "int":
+        return M.gen_scalar(rng, "int")
     if kind in ("str", "bool", "date"):
-        return M.gen_scalar(rng, kind)
+        return M.gen_scalar(rng, kind, rich=True)
     ek = kind[5:]
     n = rng.choice([0, 1, 1, 2, 2, 3])
     return M.a_list([gen_kind(rng, ek) for _ in range(n)])
@@ -244,7 +381,7 @@ def near(rng, a, kind):
 
 def tweak(rng, a, kind):
     if not kind.startswith("list-"):
-        b = M.mutate(rng, a, lambda g, k=None: gen_kind(g, kind))
+        b = M.mutate(rng, a, lambda g, k=None: gen_kind(g, kind), rich=True)
         return b if RANK[b["k"]] == RANK[a["k"]] else gen_kind(rng, kind)
     ek = kind[5:]
     items = list(a["items"])
@@ -297,12 +434,14 @@ def tri_event(cx, a, b, c):
 
 def sort_event(cx, rng):
     im = cx.im
-    m = rng.choice(["id", "id", "idrev", "key", "key", "keyrev"])
+    m = rng.choice(["id", "id", "idrev", "key", "key", "keyrev", "id3", "idsub"])
     n = rng.randint(0, 7)
-    if m in ("id", "idrev"):
-        kind = rng.choice(KINDS_B)
+    if m in ("id", "idrev", "id3", "idsub"):
+        kind = "int" if m == "idsub" else rng.choice(KINDS_B)
         base = [gen_kind(rng, kind) for _ in range(rng.randint(1, 4))]
         inp = [rng.choice(base) if rng.random() < 0.6 else near(rng, rng.choice(base), kind) for _ in range(n)]
+        if m == "idsub":        # a - b must be an int: ints only
+            inp = [x if x["k"] == "int" else rng.choice(base) for x in inp]
     else:
         kind = rng.choice(["num", "str", "bool", "date", "list-num"])
         base = [gen_kind(rng, kind) for _ in range(rng.randint(1, 3))]
@@ -313,6 +452,7 @@ def sort_event(cx, rng):
         lst.addItem(ob)
     im.put("sl", lst)
     src = {"id": "sorted(sl)", "idrev": "sorted(sl, cmp = fn(a, b) compare(b, a))",
+           "id3": "sorted(sl, cmp = fn(a, b) 3 * compare(a, b))", "idsub": "sorted(sl, cmp = fn(a, b) a - b)",
            "key": "sorted(sl, key = fn(x) x[0])",
            "keyrev": "sorted(sl, key = fn(x) x[0], cmp = fn(a, b) compare(b, a))"}[m]
     o = im.run(src)
@@ -336,7 +476,7 @@ def sort_event(cx, rng):
                 break
         p.append(hit)
     try:
-        out = [inp[k - 1] if k else M.to_abs(r, im.refs) for k, r in zip(p, res)]
+        out = [inp[k - 1] if k else M.to_abs(r, im.refs, True) for k, r in zip(p, res)]
     except M.Unencodable:
         out = []
     return {"op": "sort", "m": m, "inp": inp, "out": out, "p": p}, desc
@@ -354,26 +494,57 @@ def enum_event(cx, rng):
             items.append(x)
     if rng.random() < 0.5:
         a = M.a_set(items)
-        src = rng.choice(["[x for x in ev]", "list(ev)"])
     else:
-        a = M.a_map(items, [M.a_int(rng.randint(0, 3)) for _ in items])
-        src = rng.choice(["[x for x in keys ev]", "[e[0] for e in entries ev]"])
+        a = M.a_map(items, [gen_kind(rng, rng.choice(["num", "str", "list-num"])) for _ in items])
+    src, what, full = rng.choice(enum_sites(a))
     im.put("ev", M.build(a, im.refs))
     o = im.run(src)
     cx.n_eval += 1
-    desc = src.replace("ev", lit_key(a))
+    desc = src + " with ev = " + lit_key(a)
     if o[0] != "val":
         cx.vio("enum:" + desc + " !" + str(o[1]), f"{'host-exception' if o[0] == 'host' else 'error'}: {desc} "
-                                                  f"failed: {o[1:]}", {"kind": "prog", "src": desc})
+                                                  f"failed: {o[1:]}", {"kind": "enum", "v": a, "src": src})
         return None, desc
     try:
-        order = [M.to_abs(x, im.refs) for x in o[1].value]
+        order = [M.to_abs(x, im.refs, True) for x in o[1].value]
     except M.Unencodable:
         return None, desc
-    return {"op": "enum", "v": a, "order": order}, desc
+    return {"op": "enum", "v": a, "order": order, "what": what, "full": full}, desc
 
 
-def binding_b(cx, rng, npairs, nsorts, nenums):
+def minmax_event(cx, rng):
+    """min / max over a random list of one kind (with duplicate and equal-but-distinct keys), plain
+    and with a key; the two-argument form with a key as a list of two"""
+    im = cx.im
+    m = rng.choice(["min", "max"])
+    form = rng.choice(["list", "list", "listkey", "pairkey"])
+    n = 2 if form == "pairkey" else rng.randint(1, 7)
+    if form == "list":
+        kind = rng.choice(KINDS_B)
+        base = [gen_kind(rng, kind) for _ in range(rng.randint(1, 4))]
+        inp = [rng.choice(base) if rng.random() < 0.5 else near(rng, rng.choice(base), kind) for _ in range(n)]
+    else:
+        kind = rng.choice(["num", "str", "bool", "date", "list-num"])
+        base = [gen_kind(rng, kind) for _ in range(rng.randint(1, 3))]
+        inp = [M.a_list([near(rng, rng.choice(base), kind), M.a_str(chr(97 + t))]) for t in range(n)]
+    objs = [M.build(e, im.refs) for e in inp]
+    lst = V.ValueList()
+    for ob in objs:
+        lst.addItem(ob)
+    im.put("sl", lst)
+    src = {"list": f"{m}(sl)", "listkey": f"{m}(sl, key = fn(x) x[0])",
+           "pairkey": f"{m}(sl[0], sl[1], key = fn(x) x[0])"}[form]
+    o = im.run(src)
+    cx.n_eval += 1
+    desc = src + " with sl = " + M.literal(M.a_list(inp))
+    if o[0] != "val":
+        cx.vio("minmax:" + desc + " !" + str(o[1]), f"{'host-exception' if o[0] == 'host' else 'error'}: {desc} "
+                                                    f"failed: {o[1:]}", {"kind": "prog", "src": desc})
+        return None, desc
+    return {"op": "minmax", "m": m, "key": form != "list", "inp": inp, "which": which_of(objs, o[1])}, desc
+
+
+def binding_b(cx, rng, npairs, nsorts, nenums, nminmax=0):
     events, meta = [], []
     for _ in range(npairs):
         kind = rng.choice(KINDS_B)
@@ -396,6 +567,11 @@ def binding_b(cx, rng, npairs, nsorts, nenums):
             meta.append(desc)
     for _ in range(nenums):
         e, desc = enum_event(cx, rng)
+        if e:
+            events.append(e)
+            meta.append(desc)
+    for _ in range(nminmax):
+        e, desc = minmax_event(cx, rng)
         if e:
             events.append(e)
             meta.append(desc)
@@ -469,6 +645,18 @@ def run(run):
                                  "result": M.literal(M.a_list(out))}})
     if nsort == 0:
         raise MachineryError("ValSort exported no cases")
+    # the scanning machine's runs (min / max over a list, plain and with a key)
+    nscan = 0
+    for s in res_s.records("MINMAX"):
+        key = (s["m"], str(s["inp"]))
+        if key in seen:
+            continue
+        seen.add(key)
+        check_minmax_case(cx, s["m"], [sort_elem(s["m"], e) for e in s["inp"]], s["which"], s["ok"])
+        nscan += 1
+    if nscan == 0:
+        raise MachineryError("ValSort exported no min / max cases")
+    ntriple = check_triples(cx, u, L, groups, rng, 1500 if quick else 20000)
 
     # enumeration order of every set and map whose order the statement names
     nenum = 0
@@ -479,23 +667,29 @@ def run(run):
             check_enum(cx, a, u["srt"][i], L[i], "literal-built")
             nenum += 1
 
-    events = binding_b(cx, rng, 1500 if quick else 30000, 700 if quick else 15000, 400 if quick else 8000)
+    events = binding_b(cx, rng, 1500 if quick else 30000, 700 if quick else 15000, 500 if quick else 8000,
+                       400 if quick else 8000)
     run.sample({"TRACE": [{k: (M.literal(v) if isinstance(v, dict) else
                                [M.literal(x) for x in v] if k in ("inp", "out", "order") else v)
                            for k, v in e.items()} for e in events[:2] + events[-2:]]})
     nev = len(events)
-    run.cov["traces_validated_against_impl"] = npairs + nsort + nenum + nev
+    run.cov["traces_validated_against_impl"] = npairs + nsort + nscan + ntriple + nenum + nev
     run.cov["evaluations"] = cx.n_eval + cx.im.n
-    run.cov["distinct_nontrivial"] = npairs + nsort + nenum + nev
+    run.cov["distinct_nontrivial"] = npairs + nsort + nscan + ntriple + nenum + nev
     run.cov["rule"] = ("binding A: one case per ordered same-kind pair of the ValLaws universe (API and program), "
-                       "one per distinct run of the ValSort machine, one per set / map whose enumeration order "
-                       "the statement names; binding B: one per recorded event accepted by Val_Trace")
+                       "one per distinct run of the ValSort machines (insertion sort; min / max scan), one per "
+                       "three-element list drawn from the universe (min / max), one per set / map whose "
+                       "enumeration order the statement names (every enumeration site of the language); "
+                       "binding B: one per recorded event accepted by Val_Trace")
     run.cov["exhaustive"] = True
     run.cov["universe"] = n
     run.cov["same_kind_pairs"] = npairs
     run.cov["pairs_with_named_order"] = nstated
     run.cov["triples_checked_on_observed_relation"] = ntri
-    run.cov["bounds"] = {"universe": n, "sort_runs": nsort, "enumerations": nenum, "trace_events": nev}
+    run.cov["bounds"] = {"universe": n, "sort_runs": nsort, "min_max_runs": nscan, "min_max_triples": ntriple,
+                         "enumerations": nenum, "trace_events": nev}
+    run.cov["enumeration_sites"] = {"set": len(enum_sites(M.a_set([M.a_int(1), M.a_int(2), M.a_int(3)]))),
+                                    "map": len(enum_sites(M.a_map([M.a_int(1)], [M.a_int(1)])))}
     run.assumptions += [
         "only pairs of one kind are compared (ints and decimals are one kind); the order across kinds is not "
         "part of the property",
@@ -504,7 +698,11 @@ def run(run):
         "the direction is not compared",
         "lists are compared where the first differing position holds values whose order the statement names",
         "streams / functions (kind ref) are outside the property's quantifier and not compared",
-        "sorted is exercised on lists of one kind; cmp arguments other than compare and its reverse are not generated",
+        "sorted is exercised on lists of one kind; cmp arguments: compare, its reverse, 3 * compare(a, b) and "
+        "a difference of ints (a cmp must return an int)",
+        "which of several equal extremes min / max return is not named by the statement (the first, as the "
+        "scan of core.ckl does, is the model; another one is drift)",
+        "dates carry microseconds; `chronological` is judged to the microsecond",
     ]
 
 
